@@ -312,6 +312,10 @@ func (in *instr) run() bool {
 			if n.Tok == token.CONST {
 				in.inConst++
 			}
+		case *ast.IncDecStmt:
+			if st := in.splitRMW(c, n.X, nil, n.Tok); st != nil {
+				c.Replace(st)
+			}
 		case *ast.BasicLit:
 			if n.Kind == token.INT {
 				in.weakPrime(c, n)
@@ -383,6 +387,19 @@ func (in *instr) run() bool {
 				in.changed = true
 			}
 		case *ast.AssignStmt:
+			if n.Tok >= token.ADD_ASSIGN && n.Tok <= token.AND_NOT_ASSIGN && len(n.Lhs) == 1 && len(n.Rhs) == 1 {
+				if st := in.splitRMW(c, n.Lhs[0], n.Rhs[0], n.Tok); st != nil {
+					// the write is the original statement node, changed in place to
+					// `X = t op (Y)`: the walk goes on into Y through it, so rewrites
+					// inside Y land where they belong
+					blk := st.(*ast.BlockStmt)
+					w := blk.List[2].(*ast.AssignStmt)
+					n.Tok, n.Rhs = token.ASSIGN, w.Rhs
+					blk.List[2] = n
+					c.Replace(blk)
+					return true
+				}
+			}
 			// v, ok := <-ch
 			if in.full && !in.comm[n] && len(n.Lhs) == 2 && len(n.Rhs) == 1 {
 				if u, ok := ast.Unparen(n.Rhs[0]).(*ast.UnaryExpr); ok && u.Op == token.ARROW {
@@ -517,6 +534,67 @@ func (in *instr) run() bool {
 		}
 	}
 	return in.changed
+}
+
+// splitRMW opens the window inside a read-modify-write statement on a variable
+// other goroutines can reach (`b.n++`, `total += x` on a field or a package
+// level variable): the statement becomes { t := X; yield; X = t op Y }, so that
+// a switch between the read and the write - the classic lost update - is a
+// schedule the simulator can produce. Only for operands that are plain
+// selector chains or package-level identifiers (evaluating them twice is
+// harmless) and only where a block may stand.
+func (in *instr) splitRMW(c *astutil.Cursor, x, y ast.Expr, tok token.Token) ast.Stmt {
+	if !in.full || *flagNoYields || c.Index() < 0 || strings.HasSuffix(in.pkg.PkgPath, "/gen") {
+		return nil
+	}
+	info := in.pkg.TypesInfo
+	var pure func(e ast.Expr, top bool) bool
+	pure = func(e ast.Expr, top bool) bool {
+		switch e := e.(type) {
+		case *ast.Ident:
+			v, ok := info.Uses[e].(*types.Var)
+			if !ok {
+				return false
+			}
+			if top { // a bare identifier: shared only if it is a package-level variable
+				return v.Parent() == in.pkg.Types.Scope()
+			}
+			return true
+		case *ast.SelectorExpr:
+			return pure(e.X, false)
+		case *ast.StarExpr:
+			return pure(e.X, false)
+		case *ast.ParenExpr:
+			return pure(e.X, top)
+		}
+		return false
+	}
+	if !pure(x, true) {
+		return nil
+	}
+	if tv, ok := info.Types[x]; !ok || tv.Type == nil {
+		return nil
+	}
+	site := in.site("rmw", x.Pos(), in.exprString(x))
+	in.rep.YieldSites++
+	var op token.Token
+	var rhs ast.Expr
+	switch tok {
+	case token.INC:
+		op, rhs = token.ADD, &ast.BasicLit{Kind: token.INT, Value: "1"}
+	case token.DEC:
+		op, rhs = token.SUB, &ast.BasicLit{Kind: token.INT, Value: "1"}
+	default:
+		op = tok - (token.ADD_ASSIGN - token.ADD)
+		rhs = &ast.ParenExpr{X: y}
+	}
+	t := ast.NewIdent("_verifRMW")
+	in.changed = true
+	return &ast.BlockStmt{List: []ast.Stmt{
+		&ast.AssignStmt{Lhs: []ast.Expr{t}, Tok: token.DEFINE, Rhs: []ast.Expr{x}},
+		&ast.ExprStmt{X: simCall("Yield", strLit(site))},
+		&ast.AssignStmt{Lhs: []ast.Expr{x}, Tok: token.ASSIGN, Rhs: []ast.Expr{&ast.BinaryExpr{X: ast.NewIdent("_verifRMW"), Op: op, Y: rhs}}},
+	}}
 }
 
 // weakPrime puts the multiplier of a hand-written FNV loop behind the weak-hash
